@@ -21,6 +21,11 @@ ASSUMPTIONS = [
     "t2t: vf.ref.t2_layout is a faithful reading of the T2T operation specification (TLV walk, reserved ranges)",
     "t2t: C16 runs use a lenient tag (no return to IDLE after a NAK, a repeated SECTOR SELECT packet 1 is "
     "acknowledged again) so that no verdict depends on how a product reacts to a retransmission",
+    "t2t: a lost SECTOR SELECT packet 2 leaves the tag in the sector it was in; both readings of 'command lost' are "
+    "exercised there: the frame never reached the tag (it keeps waiting and answers the next command with NAK) and the "
+    "frame reached the tag damaged (the wait ends, the NAK is not heard, the next command is executed in the old "
+    "sector).  A *time-out* on a damaged packet 2 is exactly what the reader observes in a fault-free passive "
+    "acknowledge, so no reader can tell it from success: those cells are judged for foreign exceptions only",
 ]
 
 
@@ -1052,9 +1057,19 @@ RULE_C16 = ("cases = (personality, operation, command position p, error kind, bu
             "(long sequences: first/last 6 and 8 random positions in the quick tier); kind TimeoutError / "
             "TransmissionError / ProtocolError; b = 1..4 consecutive attempts; flavour command-lost / response-lost; "
             "b <= 2: same result, same final memory, same sequence of answered commands as the fault-free run; b >= 3: "
-            "TagCommandError with the matching errno or the documented None/False; never another exception")
+            "TagCommandError with the matching errno or the documented None/False; never another exception; at EVERY "
+            "cell (any burst, including the single-shot SECTOR SELECT packet 2): an operation that returns normally "
+            "returns the fault-free result or its documented failure value (None / False / has_changed True / a dump "
+            "that stops at the error), and when it returns the fault-free result the final tag memory equals the "
+            "fault-free memory.  Multi-sector personalities (NTAG I2C 2K, generic 2 KiB tag with a message > 1 KiB): "
+            "ndef read/write, has_changed, dump, explicit read/write in sector 0 -> 1 -> 0; every SECTOR SELECT packet "
+            "1 / packet 2 position (and the command after it) is always enumerated, packet 2 additionally with the "
+            "'command damaged' reading of a lost command")
 REQUIRED_C16 = ["t2t_c16_cells", "t2t_c16_within_budget_same_result", "t2t_c16_persistent_tagcommanderror",
-                "t2t_c16_persistent_documented_result", "t2t_c16_answered_sequences_compared"]
+                "t2t_c16_persistent_documented_result", "t2t_c16_answered_sequences_compared",
+                "t2t_c16_normal_returns_judged", "t2t_c16_sector_select_p1_cells", "t2t_c16_sector_select_p2_cells",
+                "t2t_c16_p2_lost_tag_stayed_in_sector", "t2t_c16_sector1_ops"]
+C16_MULTI_SECTOR = ("i2c2k", "generic2k")
 
 C16_KINDS = {"timeout": ("TimeoutError", 0), "transmission": ("TransmissionError", -1), "protocol": ("ProtocolError", -2)}
 C16_PASSWORD_ULC = b"0123456789abcdef"
@@ -1062,7 +1077,7 @@ C16_PASSWORD_NTAG = b"pwd4PK"
 
 
 def plan_c16(tier):
-    groups = [["generic", "ul"], ["ulc", "ntag203"], ["ntag213", "ul11", "ntag216"], ["i2c2k"]]
+    groups = [["generic", "ul"], ["ulc", "ntag203"], ["ntag213", "ul11", "ntag216"], ["i2c2k"], ["generic2k"]]
     if tier == "quick":
         return [{"kinds": g, "all_positions": i < 2} for i, g in enumerate(groups)]
     return [{"kinds": g, "all_positions": True, "timeout": 3000} for g in groups]
@@ -1077,6 +1092,10 @@ def _c16_ops(kind):
         ops += ["authenticate", "protect_pw", "signature"]
     if kind == "ntag203":
         ops += ["format_blank"]
+    if kind == "generic2k":
+        ops = ["ndef_read", "ndef_write", "has_changed", "dump", "format", "protect"]
+    if kind in C16_MULTI_SECTOR:
+        ops += ["sector_read", "sector_write"]
     return ops
 
 
@@ -1094,6 +1113,11 @@ def _c16_image(rng, kind, op):
     if kind == "generic":
         lay = L.gen_layout(rng, cc2=rng.choice([12, 18]), trailing=8, filler=False, old_len=rng.choice([5, 20]),
                            nctl=(0, 0))
+        return bytes(lay.mem)
+    if kind == "generic2k":
+        # generic tag with two 1 KiB sectors; the message continues in sector 1
+        lay = L.gen_layout(rng, cc2=0xFE, trailing=0, filler=False, old_len=rng.choice([1100, 1300]), nctl=(0, 0))
+        assert len(lay.mem) == 2048
         return bytes(lay.mem)
     if op == "format_blank":
         mem, _v = S.product_image(kind, rng)
@@ -1120,7 +1144,7 @@ def run_c16(desc, R, rng):
             if op == "ndef_write":
                 r = L.ref_read(base["mem"])
                 cap = L.ref_capacity(r.ndef_off, r.data_end, r.reserved)
-                base["data"] = rnd_bytes(rng, min(cap, 1200 if kind == "i2c2k" else 40))
+                base["data"] = rnd_bytes(rng, min(cap, 1200 if kind in C16_MULTI_SECTOR else 40))
             ref = _c16_reference(base, R)
             if ref is None:
                 continue
